@@ -5,8 +5,8 @@
      scr t        : (tw + bw + lw + #tabs + widest row) * (th + max (bh, #rows)) + 1   — the screen measure incl. scrollback
      Inv09 t      : the C09 invariant (every state reachable without a text-area resize: Props/C09.v) *)
 From Coq Require Import ZArith NArith List Bool Lia.
-From IE Require Import Model.TermCore Model.AnsiTok Model.Cost Proofs.TermProofs Proofs.CostProofs Run.RunC03.
-From IE Require Model.Sixel Model.Font.
+From IE Require Import Model.TermCore Model.AnsiTok Model.Cost Model.Alloc Proofs.TermProofs Proofs.CostProofs Proofs.AllocProofs Proofs.TicksProofs Proofs.MacroProofs Proofs.SixelCostProofs Proofs.LoadCostProofs Run.RunC03.
+From IE Require Model.Sixel Model.Font Model.SixelCost Lib.C05Lib Model.Attr Model.C05Buf Model.C05Bin Model.C05XBin Model.C05Idf Model.C05Tundra Model.C02Loaders Model.LoadCost.
 Import ListNotations.
 Local Open Scope Z_scope.
 
@@ -77,6 +77,137 @@ Theorem glyph_iters_bound : forall h data, glyph_iters h data <= zlen data.
 Proof. exact glyph_iters_bound_l. Qed.
 Theorem window_ticks_bound : forall w, window_ticks w <= 133.
 Proof. exact window_ticks_bound_l. Qed.
+
+(* ==== Extension (notes/C03.md "Extension") ================================================================================================================ *)
+(* ---- (a) allocation: threaded counters of Model/Alloc.v (rows + cells allocated, a row removed and re-inserted counts) ------------------------------------ *)
+(* the counters are attached to the model functions, and for the operations that only write cells they ARE the growth of rows + cells *)
+Theorem alloc_version_same_state :
+  (forall t, fst (scroll_up_a t) = scroll_up t) /\ (forall t, fst (scroll_down_a t) = scroll_down t) /\
+  (forall t, fst (scroll_left_a t) = scroll_left t) /\ (forall t, fst (scroll_right_a t) = scroll_right t) /\
+  (forall t ys xs c, fst (fill_cells_a t ys xs c) = fill_cells t ys xs c) /\
+  (forall w h ls x y c, lsize (lset w h ls x y c) = lsize ls + lset_a w h ls x y) /\
+  (forall t, snd (scroll_up_a t) = lsize (lines (scroll_up t)) - lsize (lines t)) /\
+  (forall t, snd (scroll_down_a t) = lsize (lines (scroll_down t)) - lsize (lines t)) /\
+  (forall t ys xs c, snd (fill_cells_a t ys xs c) = lsize (lines (fill_cells t ys xs c)) - lsize (lines t)).
+Proof.
+  exact (conj scroll_up_a_fst (conj scroll_down_a_fst (conj scroll_left_a_fst (conj scroll_right_a_fst (conj fill_cells_a_fst
+        (conj lset_exact (conj scroll_up_a_exact (conj scroll_down_a_exact fill_cells_a_exact)))))))).
+Qed.
+(* nothing is allocated uncounted: a successful call grows rows + cells by at most its counter *)
+Theorem alloc_counts_growth :
+  (forall t c t', print_char t c = ROk t' -> lsize (lines t') <= lsize (lines t) + print_char_a t c) /\
+  (forall t t', caret_lf t = ROk t' -> lsize (lines t') <= lsize (lines t) + caret_lf_a t) /\
+  (forall t c t', insert_terminal_line t c = ROk t' -> lsize (lines t') <= lsize (lines t) + insert_terminal_line_a t c) /\
+  (forall t c t', remove_terminal_line t c = ROk t' -> lsize (lines t') <= lsize (lines t) + remove_terminal_line_a t c) /\
+  (forall t, lsize (lines (caret_ins t)) <= lsize (lines t) + caret_ins_a t) /\
+  (forall t n t', 0 <= cx t -> caret_erase t n = ROk t' -> lsize (lines t') <= lsize (lines t) + caret_erase_a t n).
+Proof.
+  exact (conj print_char_dom (conj caret_lf_dom (conj (fun t c t' H => proj1 (proj2 (insert_terminal_line_spec t c t' H)))
+        (conj (fun t c t' H => proj1 (proj2 (remove_terminal_line_spec t c t' H))) (conj caret_ins_dom caret_erase_dom))))).
+Qed.
+(* for EVERY final byte (REP included) the state-difference counter `alloc` of csi_final_c is at most the threaded counter *)
+Theorem alloc_dominates : forall t p is_start ch, 0 <= cx t -> alloc (snd (csi_final_c t p is_start ch)) <= csi_final_a t p is_start ch.
+Proof. exact alloc_dom_l. Qed.
+(* alloc_bound: rows + cells allocated by ANY CSI control function without intermediate, any parameters, any state of the C09 invariant;
+   REP (final byte b) is the known class *)
+Theorem alloc_bound : forall t p is_start ch n, Inv09 t -> 0 <= n -> nlen (nums p) <= n -> ch <> 98 ->
+  0 <= csi_final_a t p is_start ch <= 8 * (n + 1) * scr t.
+Proof. exact alloc_bound_l. Qed.
+Theorem alloc_bound_state : forall t p is_start ch n, Inv09 t -> 0 <= n -> nlen (nums p) <= n -> ch <> 98 ->
+  alloc (snd (csi_final_c t p is_start ch)) <= 8 * (n + 1) * scr t.
+Proof. exact alloc_bound_state_l. Qed.
+Theorem alloc_bound_sp : forall t p ch n, Inv09 t -> 0 <= n ->
+  alloc (snd (csi_sp_c t p ch)) <= csi_sp_a t p ch /\ 0 <= csi_sp_a t p ch <= 8 * (n + 1) * scr t.
+Proof. exact alloc_bound_sp_pair_l. Qed.
+Theorem alloc_bound_dollar : forall t p ch n, Inv09 t -> 0 <= n ->
+  alloc (snd (csi_dollar_c t p ch)) <= csi_dollar_a t p ch /\ 0 <= csi_dollar_a t p ch <= 8 * (n + 1) * scr t.
+Proof. exact alloc_bound_dollar_pair_l. Qed.
+
+(* ---- (b) weighted iteration total of every CSI control function; the clip of the rectangular-area operations ------------------------------------------- *)
+Theorem ticks_bound : forall t p is_start ch n, Inv09 t -> 0 <= n -> nlen (nums p) <= n -> ch <> 98 ->
+  0 <= ticks (snd (csi_final_c t p is_start ch)) <= 8 * (n + 1) * (scr t * scr t).
+Proof. exact ticks_bound_l. Qed.
+Theorem ticks_bound_sp : forall t p ch, Inv09 t -> 0 <= ticks (snd (csi_sp_c t p ch)) <= scr t * scr t.
+Proof. exact ticks_bound_sp_l. Qed.
+(* get_rect_area clips to max(rows, text height) x text width: DECFRA / DECERA / DECSERA visit at most scrW * scrH cells *)
+Theorem rect_clip : forall t a b c d, Inv09 t -> 0 <= rect_ticks t a b c d <= scrW t * scrH t.
+Proof. exact rect_ticks_bound_l. Qed.
+Theorem ticks_bound_dollar : forall t p ch, Inv09 t -> 0 <= ticks (snd (csi_dollar_c t p ch)) <= scr t.
+Proof. exact ticks_bound_dollar_l. Qed.
+(* DECRQCRA rejects a rectangle that is not inside the text area: at most tw * th cells are read *)
+Theorem ticks_bound_rqcra : forall t p, Inv09 t -> 0 <= ticks (snd (rqcra_c t p)) <= scr t.
+Proof. exact ticks_bound_rqcra_l. Qed.
+(* the $ group and DECRQCRA of the cost dispatcher are the arms of the character-level model *)
+Theorem dollar_arms_only : forall inv t p ch, st p = SEndCsi 36 -> fst (csi_dollar_c t p ch) = astep_gen inv (mkA t p) ch.
+Proof. exact dollar_arms_only_l. Qed.
+Theorem rqcra_arm_only : forall inv t p, st p = SEndCsi 42 -> fst (rqcra_c t p) = astep_gen inv (mkA t p) 121.
+Proof. exact rqcra_arm_only_l. Qed.
+
+(* ---- (c) hex-macro repeat groups and macro replay: conditional bounds ------------------------------------------------------------------------------------------------ *)
+(* parse_hex_macro_sequence: characters read + characters appended, and the length of the macro, are at most (1 + largest repeat count) x length;
+   hex_reps s HFirst false 0 is the largest repeat count of a group opened in s: the known class `hexmacro-repeat` is exactly a large value of it *)
+Theorem hexmacro_bound : forall s,
+  snd (hex_macro_t s HFirst false [] 0 [] 0) <= zlen s * (1 + hex_reps s HFirst false 0) /\
+  (forall mac, fst (hex_macro_t s HFirst false [] 0 [] 0) = Some mac -> zlen mac <= zlen s * (1 + hex_reps s HFirst false 0)).
+Proof. exact hexmacro_bound_l. Qed.
+Theorem hexmacro_bound_cond : forall s B, ~ KnownC03_hexrep s B -> snd (hex_macro_t s HFirst false [] 0 [] 0) <= zlen s * (1 + B).
+Proof. exact hexmacro_bound_known_l. Qed.
+Theorem hexmacro_linear : forall s, hex_reps s HFirst false 0 = 0 -> snd (hex_macro_t s HFirst false [] 0 [] 0) <= zlen s.
+Proof. exact hexmacro_linear_l. Qed.
+(* invoke_macro_by_id: when the nesting is shallower than the budget (macro_chars = Some n; recursion is the known class: macro_recursion_refuted),
+   the characters replayed are at most B (1 + c + ... + c^(fuel-1)) for bodies of at most B characters holding at most c invocations each *)
+Theorem macro_replay_bound : forall fuel ms id B c n, 0 <= B -> 0 <= c -> macros_ok ms B c -> macro_chars fuel ms id = Some n -> 0 <= n <= B * geom c fuel.
+Proof. exact macro_replay_bound_l. Qed.
+Theorem macro_invokes_half : forall body, 2 * zlen (find_invokes body) <= zlen body.
+Proof. exact find_invokes_half. Qed.
+Theorem macro_table_ok : forall ms, macros_ok ms (macros_maxlen ms) (macros_maxinv ms).
+Proof. exact macros_max_ok. Qed.
+
+(* ---- (d) the sixel decoder (Model/Sixel.v with the counters of Model/SixelCost.v) ---------------------------------------------------------------------------------------- *)
+(* iterations (calls of parse_char + calls of parse_sixel_data by the repeat loop) <= payload length + executed repeat counts; the counted decoder IS the decoder *)
+Theorem sixel_ticks_bound : forall hsl s cs,
+  fst (SixelCost.parse_chars_t hsl s cs 0) = Sixel.parse_chars hsl s cs /\
+  0 <= snd (SixelCost.parse_chars_t hsl s cs 0) <= SixelCost.zlenN cs + SixelCost.rep_sum hsl s cs.
+Proof. exact (fun hsl s cs => conj (sixel_ticks_same_l hsl s cs) (sixel_ticks_bound_l hsl s cs)). Qed.
+(* bytes held by picture_data after any stretch of decoding: at most (rows) x (longest row), rows <= max(rows before, 6 (y + T) + 6, declared height),
+   longest row <= max(longest before, 4 (x + T), 4 x declared width), T = payload length + executed repeat counts.
+   Raster attributes (decl_max) and repeat counts (rep_sum) are the only numbers of the payload in the bound: the known classes sixel-raster / sixel-repeat *)
+Theorem sixel_alloc_bound : forall hsl s cs s', 0 <= Sixel.cur_x s -> 0 <= Sixel.cur_y s -> Sixel.parse_chars hsl s cs = Sixel.Ok s' ->
+  SixelCost.sixel_bytes (Sixel.rows s') <=
+  SixelCost.sixel_cap (Sixel.cur_x s) (Sixel.cur_y s) (Sixel.height (Sixel.rows s)) (SixelCost.mxl (Sixel.rows s))
+                      (SixelCost.zlenN cs + SixelCost.rep_sum hsl s cs) (fst (SixelCost.decl_max hsl s cs)) (snd (SixelCost.decl_max hsl s cs)).
+Proof. exact sixel_alloc_bound_l. Qed.
+(* the image Sixel::parse_from returns (rows padded to the longest one): 4 * max(T, declared width) * max(6 T + 6, declared height) bytes at most *)
+Theorem sixel_image_bound : forall hsl pal0 vs hs data w h d, Sixel.parse_from hsl pal0 vs hs data = Sixel.Ok (w, h, d) ->
+  let cs := data ++ [35] in let s0 := Sixel.init_state pal0 vs hs in let T := SixelCost.zlenN cs + SixelCost.rep_sum hsl s0 cs in
+  SixelCost.zlenN d <= Z.max (6 * T + 6) (snd (SixelCost.decl_max hsl s0 cs)) * (4 * Z.max T (fst (SixelCost.decl_max hsl s0 cs))).
+Proof. exact sixel_image_bound_l. Qed.
+
+(* ---- (e) binary loaders: the cell loops of the C05 / C02 loader models with the counters of Model/LoadCost.v ------------------------------------------------------------- *)
+(* BIN, ADF, uncompressed XBin (pair_loop): cells stored = pairs read (<= half the bytes); the loaded layer holds at most max(what was there, pairs + width) cells *)
+Theorem load_ticks_bound_pair : forall grow dec w L data, 1 <= w -> C05Buf.l_w L = w -> LoadCost.lmaxrow (C05Buf.l_lines L) <= w ->
+  fst (LoadCost.pair_loop_t grow dec w L 0 0 data 0) = C05Bin.pair_loop grow dec w L 0 0 data /\
+  2 * snd (LoadCost.pair_loop_t grow dec w L 0 0 data 0) <= Z.of_nat (length data) /\
+  LoadCost.lcells (C05Buf.l_lines (C05Bin.pair_loop grow dec w L 0 0 data)) <= Z.max (w * LoadCost.lrows L) (Z.of_nat (length data) / 2 + w).
+Proof. exact load_ticks_bound_pair_l. Qed.
+(* compressed XBin (read_data_compressed): at most 1 + 64 cells per byte *)
+Theorem load_ticks_bound_xbc : forall w m fixed L data,
+  fst (LoadCost.xbc_loop_t w (C05XBin.xb_decode m fixed) (length data) L 0 0 data 0) = C02Loaders.xb_read_compressed w m fixed L data /\
+  0 <= snd (LoadCost.xbc_loop_t w (C05XBin.xb_decode m fixed) (length data) L 0 0 data 0) <= 65 * Z.of_nat (length data).
+Proof. exact load_ticks_bound_xbc_l. Qed.
+(* Tundra: one command per byte at most; rows <= declared row (< 65535: the known class `C02-resource`) + commands + 1 *)
+Theorem load_ticks_bound_tnd : forall fuel w L pal at0 data,
+  let r := LoadCost.tnd_loop2_t fuel w L pal at0 0 0 data 0 0 in
+  fst (fst r) = C02Loaders.tnd_loop2 fuel w L pal at0 0 0 data /\
+  0 <= snd (fst r) <= Z.of_nat (length data) /\ 0 <= snd r <= 65534 /\
+  (forall L' p', C02Loaders.tnd_loop2 fuel w L pal at0 0 0 data = C05Lib.Ok (L', p') -> LoadCost.lrows L' <= Z.max (LoadCost.lrows L) (snd r + snd (fst r) + 1)).
+Proof. exact load_ticks_bound_tnd_l. Qed.
+(* IDF: cells stored <= half the bytes + the run lengths declared by repeat records (the known class) *)
+Theorem load_ticks_bound_idf : forall x1 x2 L bh x y area,
+  fst (fst (LoadCost.idf_loop_t x1 x2 L bh x y area 0 0)) = C05Idf.idf_loop x1 x2 L bh x y area /\
+  0 <= snd (fst (LoadCost.idf_loop_t x1 x2 L bh x y area 0 0)) /\
+  2 * snd (fst (LoadCost.idf_loop_t x1 x2 L bh x y area 0 0)) <= Z.of_nat (length area) + 2 * snd (LoadCost.idf_loop_t x1 x2 L bh x y area 0 0).
+Proof. exact load_ticks_bound_idf_l. Qed.
 
 (* ---- non-vacuity: the ledger inputs through the model ---------------------------------------------------------------------------------------- *)
 (* CSI 2147483647 S on 80x25: 12 parameter characters + 25 scrolls, not 2^31 *)
